@@ -40,7 +40,7 @@ func RandomFeat(r *Rng) Feat {
 	f := Feat{
 		Funcs: r.Chance(75), Slices: r.Chance(55), Strings: r.Chance(75), Switch: r.Chance(40),
 		ForRange: r.Chance(40), For3: r.Chance(60), FileOps: r.Chance(30), AppCalls: r.Chance(25),
-		Input: r.Chance(12), MultiRet: r.Chance(40), Panic: r.Chance(20), Comments: r.Chance(30), NoStrLit: r.Chance(12), AdvNames: r.Chance(30), Errors: r.Chance(35), Blanks: r.Chance(35),
+		Input: r.Chance(12), MultiRet: r.Chance(40), Panic: r.Chance(20), Comments: r.Chance(30), NoStrLit: r.Chance(12), AdvNames: r.Chance(30), Errors: r.Chance(35), Blanks: r.Chance(35), NamePool: r.Chance(20),
 		MaxTop: r.Range(1, 8), MaxBody: r.Range(1, 4), MaxDepth: r.Range(1, 3), MaxExpr: r.Range(1, 3), MaxFuncs: r.Range(0, 4),
 	}
 	if r.Chance(20) {
@@ -681,7 +681,7 @@ func (g *pgen) block(env []variable, n int, depth int, inFunc, inLoop bool, uppe
 				for j := range args {
 					args[j] = g.expr("string", env, 2)
 				}
-				name := r.Pick([]string{"ls", "grep", "echo", "sort", "cat", "`/bin/ls`", `"my prog"`})
+				name := r.Pick([]string{"ls", "grep", "echo", "sort", "cat", "`/bin/ls`", `"my prog"`, "mkdir", "deploy"})
 				if len(g.f.WorldPaths) > 0 && r.Chance(30) {
 					name = `"` + r.Pick(g.f.WorldPaths) + `"`
 				}
@@ -848,7 +848,9 @@ func (g *pgen) funcDef(globals []variable, public bool) FuncSig {
 		}
 	}
 	if g.f.NamePool && !public {
-		pool := []string{"alpha", "beta", "gamma", "delta", "eps", "zeta"}
+		// (half of the pool are names of programs that app calls run: a function of one program is
+		// then named like a command another program calls)
+		pool := []string{"alpha", "beta", "gamma", "delta", "eps", "zeta", "mkdir", "ls", "cat", "sort", "grep", "deploy"}
 		free := []string{}
 		for _, n := range pool {
 			used := false
